@@ -1,6 +1,7 @@
 import Driver.Util
 import MpcVerif.Model.Iknp
 import MpcVerif.Model.Cot
+import MpcVerif.Model.CoBytes
 
 namespace Drv.C06
 open Mpc Drv Mpc.Iknp
@@ -246,12 +247,24 @@ def handleMitccrh (seed bsz calls : String) : String :=
     | some outs => ";".intercalate outs
   | _, _ => "bad-op"
 
+/-- `cobytes <stape> <rtape> <flags:wires;...>`: the byte-level Chou-Orlandi
+session on P-256 (`CoBytes.session`): both byte streams and the receiver's
+labels. -/
+def handleCoBytes (stape rtape batches : String) : String :=
+  match Aes.bytesOfHex stape, Aes.bytesOfHex rtape, (batches.splitOn ";").mapM parseCBatch with
+  | some stape, some rtape, some bs =>
+    let r := CoBytes.session stape rtape (bs.map fun b => { flags := b.flags, wires := b.wires })
+    let head := s!"S={Aes.hexOfBytes r.1.s2r};R={if r.1.r2s.size = 0 then "-" else Aes.hexOfBytes r.1.r2s}"
+    if r.2 then head ++ ";ok=" ++ ",".intercalate (r.1.outs.map labelsHex) else head ++ ";err"
+  | _, _, _ => "bad-op"
+
 /-- Line-protocol handler of property C06. -/
 def handle (args : List String) : String :=
   match args with
   | ["iknp", _base, _transport, stape, rtape, batches] => handleIknp stape rtape batches
   | ["cot", kind, mal, _base, _transport, stape, rtape, batches] => handleCot kind mal stape rtape batches
   | ["mitccrh", seed, bsz, calls] => handleMitccrh seed bsz calls
+  | ["cobytes", stape, rtape, batches] => handleCoBytes stape rtape batches
   | _ => "bad-op"
 
 end Drv.C06
